@@ -156,7 +156,9 @@ def h_update_rules(n_old: int, u0: int, w0: int, u1: int, w1: int, n_upd: int) -
     # deletes.  Two successive single-key updates == the model (dict update, untouched keys keep their place).
     old = [(b"a", b"1"), (b"\xc3\xa9", b"2")][:n_old]
     fmd = ThriftObject.from_fields("FileMetaData", key_value_metadata=_kvlist([e[0] for e in old],
-                                                                              [e[1] for e in old]))
+                                                                              [e[1] for e in old]),
+                                   version=1, num_rows=0, row_groups=[],
+                                   schema=[parquet_thrift.SchemaElement(name="schema", num_children=0)])
     upds = [(KEYS[u0], VALS[w0]), (KEYS[u1], VALS[w1])][:n_upd]
     if ONE_DICT and len({k for k, _ in upds}) == len(upds):
         util.update_custom_metadata(fmd, dict(upds))          # one update dict naming several keys
@@ -164,6 +166,11 @@ def h_update_rules(n_old: int, u0: int, w0: int, u1: int, w1: int, n_upd: int) -
         for k, v in upds:
             util.update_custom_metadata(fmd, {k: v})          # a sequence of single-key updates
     got = [(kv.key, kv.value) for kv in (fmd.key_value_metadata or [])]
+    # the updated footer is still writable: the real writer.write_thrift (key/value type validation + serialisation)
+    # accepts it, whatever was removed
+    out = SymFile(0)
+    if writer.write_thrift(out, fmd) < 1:
+        return False
     model = list(old)
     for k, v in upds:
         kb = _b(k)
@@ -197,11 +204,14 @@ def replay_h_update_rules(n_old, u0, w0, u1, w1, n_upd):
             fmd.key_value_metadata = [_pt.KeyValue(key=k, value=v) for k, v in old.items()]
         rewrite_footer(fn, only_old)
         model = dict(old)
-        if ONE_DICT and len({k for k, _ in upds}) == len(upds):
-            fastparquet.update_file_custom_metadata(fn, dict(upds))
-        else:
-            for k, v in upds:
-                fastparquet.update_file_custom_metadata(fn, {k: v})
+        try:
+            if ONE_DICT and len({k for k, _ in upds}) == len(upds):
+                fastparquet.update_file_custom_metadata(fn, dict(upds))
+            else:
+                for k, v in upds:
+                    fastparquet.update_file_custom_metadata(fn, {k: v})
+        except Exception as ex:
+            return True, "updates %r on %r are refused: %s: %s" % (upds, old, type(ex).__name__, str(ex)[:80])
         for k, v in upds:
             if v is None:
                 model.pop(_b(k), None)
